@@ -19,6 +19,8 @@ import (
 	"runtime"
 	"sort"
 	"sync"
+
+	"github.com/FollowTheProcess/spok/verifhook"
 )
 
 // ALWAYS is a constant string that is different to the string returned from
@@ -77,6 +79,7 @@ func (c Concurrent) Hash(files []string) (string, error) {
 	// nWorkers is min of NumCPU and len(files) so we don't start more workers than
 	// is necessary (no point kicking off 8 workers to do 3 files for example)
 	nWorkers := min(runtime.NumCPU(), len(files))
+	verifhook.Point("hash.begin", len(files), nWorkers)
 	for range nWorkers {
 		wg.Add(1)
 		go worker(results, jobs, &wg)
@@ -104,6 +107,7 @@ func (c Concurrent) Hash(files []string) (string, error) {
 	var accumulator [][]byte
 	var errors []error
 	for r := range results {
+		verifhook.Point("hash.collect", r.file, r.err != nil)
 		// Accumulating errors as no matter what we'll need to range over the results
 		// channel to drain it
 		if r.err != nil {
@@ -116,6 +120,7 @@ func (c Concurrent) Hash(files []string) (string, error) {
 		accumulator = append(accumulator, joinedHashItem)
 	}
 
+	verifhook.Point("hash.collected", len(accumulator), len(errors))
 	if len(errors) != 0 {
 		// Any error here is pretty much a dealbreaker so we just bail out
 		// on the first one
@@ -140,10 +145,14 @@ func (c Concurrent) Hash(files []string) (string, error) {
 // sure all the workers have finished before closing the results channel.
 func worker(results chan<- result, files <-chan string, wg *sync.WaitGroup) {
 	defer wg.Done()
+	verifhook.Point("hash.worker.start")
+	defer verifhook.Point("hash.worker.exit")
 	for file := range files {
 		var res result
 		res.file = file
+		verifhook.Point("hash.worker.open", file)
 		f, err := os.Open(file)
+		verifhook.Point("hash.worker.opened", file, err == nil)
 		if err != nil {
 			// Could not open the file (missing, dangling link...), report it and move on
 			res.err = err
@@ -170,6 +179,7 @@ func worker(results chan<- result, files <-chan string, wg *sync.WaitGroup) {
 		}
 		res.hash = hash.Sum(nil)
 
+		verifhook.Point("hash.worker.send", file, res.err != nil)
 		results <- res
 	}
 }
